@@ -87,6 +87,9 @@ type Session struct {
 	SessionID string
 	Class     []byte
 
+	// tornDown is set by the first teardown of the session (see beginTeardown)
+	tornDown bool
+
 	mu sync.RWMutex
 }
 
@@ -153,6 +156,19 @@ func (s *Session) GetState() SessionState {
 	s.mu.RLock()
 	defer s.mu.RUnlock()
 	return s.State
+}
+
+// beginTeardown marks the session as torn down. It returns true for the first
+// caller only: a session is cleaned up (accounting stop, address release,
+// map removal) exactly once, however many termination paths reach it.
+func (s *Session) beginTeardown() bool {
+	s.mu.Lock()
+	defer s.mu.Unlock()
+	if s.tornDown {
+		return false
+	}
+	s.tornDown = true
+	return true
 }
 
 // IsEstablished returns true if the session is established
